@@ -1,6 +1,7 @@
 from vlib import Check
 
 TRUSTED = [
+    "tie (T), added: the statement lists of the functions this property's model was transcribed from are regenerated from /repo on every run (Gen/Stmts.lean) and pinned against the committed transcription source by the kernel-decided theorem source_as_modelled; the step from statements to model is by reading and is what the differential runs check",
     "Lean 4.33.0 kernel; axioms of every theorem audited",
     "algebra (d): Model/PsAlgebra.lean blsVerify + C18's Lagrange theorems; tie (T): the arithmetic statements of localSign / localVerify / localAggregateSignatures / localAggregatePublicKeys / localCreatePublicKeys are regenerated and pinned (Props/C09 bls_equations_as_modelled), "
     "tie (D): C18's scalar-level differential runs and the subset-verification monitor of the full stack",
@@ -18,7 +19,7 @@ ASSUME = [
 
 def main():
     c = Check("C01")
-    c.prove(gen=["ps"])
+    c.prove(gen=["ps", "stmts"])
     c.correspond("fullstack")
     c.correspond("dkgstep")
     return c.finish(
